@@ -73,6 +73,8 @@ fn one_call(pool: &dyn Pool, f: usize, matching: bool) {
     emit(json!({"ev":"Call","f":format!("f{f}"),"match":matching,"res":res}));
 }
 
+pub static USE_DEFAULT_CTOR: std::sync::atomic::AtomicBool = std::sync::atomic::AtomicBool::new(false);
+
 fn run_life(pool: &dyn Pool, nf: usize, life: &Value) {
     let kind = s(life, "kind");
     let steps = life.get("steps").and_then(|x| x.as_array()).cloned().unwrap_or_default();
@@ -96,7 +98,8 @@ fn run_life(pool: &dyn Pool, nf: usize, life: &Value) {
             }
             return;
         }
-        let mut inj = in_lib(InjectorPP::new);
+        // both ways of creating an injector
+        let mut inj = if USE_DEFAULT_CTOR.load(SeqCst) { in_lib(InjectorPP::default) } else { in_lib(InjectorPP::new) };
         emit(json!({"ev":"Acquire","kind":"inj","lock":lock_state()}));
         let _m = DropMarker { munmap_fault: s(life, "drop_fault") == "munmap" };
         for st in &steps {
@@ -208,6 +211,7 @@ fn run_scenario(sc: &Value) {
     let want_diff = sc.get("diff").and_then(|x| x.as_bool()).unwrap_or(false);
     let img = if want_diff { Some(watch::exec_image(&[])) } else { None };
     let lives = sc.get("lives").and_then(|x| x.as_array()).cloned().unwrap_or_default();
+    USE_DEFAULT_CTOR.store(s(sc, "ctor") == "default", SeqCst);
     let ambient = sc.get("ambient").and_then(|x| x.as_bool()).unwrap_or(false);
     if ambient {
         emit(json!({"ev":"Ambient","panicking":true}));
